@@ -282,6 +282,11 @@ class Runner:
                 else:
                     pr = self._refl(gens.build_repo(v))
                 it.publish_proof(pr)
+            elif kind == 'prove-extra':
+                # one more proof published than there are claims
+                if self.phase != 2 or self.proved_claims < len(self.claim_specs): raise Skip
+                pr = self._refl(P.Symbol('misuse'))
+                it.publish_proof(pr)
             elif kind == 'instantiate-without-plugs':
                 t = self.top(1)
                 if not t or not isinstance(t[0], Proved): raise Skip
@@ -330,6 +335,8 @@ def draw_step(draw, r: Runner, misuse=False):
         # a refused call ends the history
         if r.phase == 2 and len(r.claim_specs) - r.proved_claims >= 2 and draw(st.integers(0, 5)) == 0:
             return ['misuse', 'prove-out-of-order']
+        if r.phase == 2 and r.proved_claims >= len(r.claim_specs) and draw(st.integers(0, 7)) == 0:
+            return ['misuse', 'prove-extra']
         if draw(st.integers(0, 59)) == 0:
             return ['misuse', draw(st.sampled_from(MISUSES[2:]))]
     k = draw(st.sampled_from(STEP_KINDS))
